@@ -474,6 +474,8 @@ class DataFrame:
         return r
 
     def drop(self, labels=None, axis=0, index=None, columns=None, inplace=False, errors="raise", level=None):
+        if level is not None:
+            raise E.Unsupported("drop: argument value outside the modelled subset")
         if labels is not None and (index is not None or columns is not None):
             raise ValueError("Cannot specify both 'labels' and 'index'/'columns'")
         if columns is not None and axis not in (0,) and axis is not None:
@@ -586,6 +588,8 @@ class DataFrame:
         return self.round(n)
 
     def reset_index(self, level=None, drop=False, inplace=False, names=None, **kw):
+        if level is not None:
+            raise E.Unsupported("reset_index: argument value outside the modelled subset")
         r = self.copy()
         if not drop:
             inames = self.index.names
@@ -828,21 +832,33 @@ class DataFrame:
         return self._reduce("sum")
 
     def min(self, axis=0, **kw):
+        if axis not in (0, "index", None):
+            raise E.Unsupported("min: argument value outside the modelled subset")
         return self._reduce("min")
 
     def max(self, axis=0, **kw):
+        if axis not in (0, "index", None):
+            raise E.Unsupported("max: argument value outside the modelled subset")
         return self._reduce("max")
 
     def mean(self, axis=0, **kw):
+        if axis not in (0, "index", None):
+            raise E.Unsupported("mean: argument value outside the modelled subset")
         return self._reduce("mean")
 
     def count(self, axis=0, **kw):
+        if axis not in (0, "index", None):
+            raise E.Unsupported("count: argument value outside the modelled subset")
         return self._reduce("count")
 
     def all(self, axis=0, **kw):
+        if axis not in (0, "index", None):
+            raise E.Unsupported("all: argument value outside the modelled subset")
         return self._reduce("all")
 
     def any(self, axis=0, **kw):
+        if axis not in (0, "index", None):
+            raise E.Unsupported("any: argument value outside the modelled subset")
         return self._reduce("any")
 
     def nunique(self):
